@@ -28,7 +28,7 @@ pub const SPEC: PropSpec = PropSpec {
 };
 
 pub fn run(cfg: &RunCfg) -> Report {
-    let cases = cfg.cases(300_000, 12_000_000);
+    let cases = cfg.cases(2_000_000, 40_000_000);
     let mut rep = run_cases(cfg, 0, cases, Duration::from_secs(3600), |_c, rng, rep| super::c03::run_state(rng, rep, "C04"));
     let shell = crate::sim::c04_shell::run(cfg);
     rep.merge(shell);
